@@ -1,6 +1,6 @@
 (* Extraction of the executable model. Only ExtrOcamlBasic and ExtrOcamlString directives are used. *)
 From Coq Require Import Extraction ExtrOcamlBasic ExtrOcamlString.
-From LN Require Import Model.Chars Model.Case Model.Names Model.Fs Spec.Ident.
+From LN Require Import Model.Chars Model.Case Model.Names Model.Fs Model.Adapters Spec.Ident.
 Extraction Language OCaml.
 Set Extraction AccessOpaque.
 Extraction "model.ml"
@@ -8,4 +8,5 @@ Extraction "model.ml"
   Names.sanitize Names.sanitize_struct Names.sanitize_filename Names.is_restricted Names.ident_new_ok
   Names.op_file_name Names.op_name_of_id Names.qualified_env_var Names.package_name
   Ident.ident_ok Ident.name_dom
-  Fs.gen Fs.crash Fs.crash_cleanup Fs.wwc Fs.in_scope.
+  Fs.gen Fs.crash Fs.crash_cleanup Fs.wwc Fs.in_scope
+  Adapters.ser_str Adapters.de_str Adapters.ser_nz Adapters.de_nz Adapters.ser_date Adapters.de_date Adapters.valid_date.
